@@ -159,7 +159,12 @@ def sink_blocks(P, fn):
         if is_workspace_fn(P, p):
             g = P.fn(p) or P.fn(generic_path(p))
             if g is not None and effects(P, g):
-                out.append((b, "call of effectful %s" % g.path))
+                if common.ctor_helper(P, g):
+                    for e in sorted(effects(P, g)):
+                        if e[0] == "msg":
+                            out.append((b, "message %s::%s (built by %s)" % (e[1], e[2], g.path)))
+                else:
+                    out.append((b, "call of effectful %s" % g.path))
     for b, blk in enumerate(fn.body.blocks):
         if blk["cleanup"]:
             continue
